@@ -3,6 +3,8 @@ package harness
 import (
 	"fmt"
 
+	"github.com/tychoish/fun"
+
 	"verif/simrt"
 )
 
@@ -42,7 +44,16 @@ func c01Run(w *W) {
 			runState = 2
 		})
 	}
-	for i, it := range p.outs {
+	// a Split output is channel-backed: it may itself be drained by several
+	// tasks with ReadOne
+	shareOutputs := kind == pkSplit && !nextValue && simrt.Choose(3) == 0
+	outs := p.outs
+	if shareOutputs {
+		outs = append(append([]*fun.Iterator[int]{}, p.outs...), p.outs...)
+		w.hist = append(w.hist, "each Split output is drained by two tasks")
+		p.ordered = false // two readers: no order between what each of them got
+	}
+	for i, it := range outs {
 		it := it
 		r := &drainRec{}
 		recs = append(recs, r)
